@@ -338,6 +338,16 @@ def _arith(case, ctx, g):
     ctx.close("confidence_region", torch.stack([lo, hi]), torch.stack([mean - 2 * var.sqrt(), mean + 2 * var.sqrt()]), "direct", cls=rep)
     ctx.close("covariance_matrix", d.covariance_matrix, C, "direct", cls=rep)
     ctx.expect("shapes", tuple(d.batch_shape) == tuple(db) and tuple(d.event_shape) == (N,), f"batch {tuple(d.batch_shape)} event {tuple(d.event_shape)}")
+    # the independent (per-component) view and non-reparameterised draws
+    ind = d.to_data_independent_dist()
+    ctx.close("variance", ind.mean, mean, "direct", cls=rep + ":independent:mean")
+    ctx.close("stddev", ind.stddev, var.sqrt(), "direct", cls=rep + ":independent:stddev")
+    torch.manual_seed(case["seed"])
+    s1 = d.sample(torch.Size([3]))
+    torch.manual_seed(case["seed"])
+    s2 = d.rsample(torch.Size([3]))
+    ctx.close("sample_is_rsample", s1, s2.detach(), (1e-12, 1e-12), cls=rep + ":sample")
+    ctx.expect("sample_is_rsample", tuple(s1.shape) == (3, *db, N) and not s1.requires_grad, f"sample shape {tuple(s1.shape)}, requires_grad {s1.requires_grad}")
     c = float(util.randn(g, 1)) * 2 + 0.1
 
     prime = ["none", "scale_tril", "log_prob_chol", "rsample"][case["seed"] % 4]
